@@ -78,7 +78,7 @@ def gen(rng, knobs):
                 if isinstance(sid, str):
                     opened.append(sid)
             elif c < 0.6:
-                sid = rng.choice(opened) if opened and rng.random() < 0.8 else "nope"
+                sid = rng.choice(opened) if opened and rng.random() < 0.8 else rng.choice(["nope", None, 5, [], {}, True, ""])
                 script.append(["send", json.dumps(["CLOSE", sid])])
             elif c < 0.85:
                 script.append(["send", json.dumps(["EVENT", rng.choice(pool)])])
@@ -110,8 +110,9 @@ def parse(text):
         return None
 
 
-def check_client(c, world, case, ev_times, ev_done, submissions, quiet_points, viol, probes, stored_done=None):
+def check_client(c, world, case, ev_times, ev_done, submissions, quiet_points, viol, probes, stored_done=None, ev_objs=None):
     stored_done = stored_done or {}
+    ev_objs = ev_objs or {}
     backend = case["backend"]
     limit = case["subscription_limit"]
     frames = c.frames
@@ -224,6 +225,30 @@ def check_client(c, world, case, ev_times, ev_done, submissions, quiet_points, v
                                          "detail": {"sub": sid, "event": (eid or "")[:8],
                                                     "preloaded": t_sub is None}})
                             break
+    # a live push under an id must match the subscription that currently holds the id: an event
+    # submitted after a REQ for that id had been fully handled may only be pushed if it matches a
+    # filter of that REQ (a replaced subscription must not keep delivering under the id)
+    for sid, frs in by_id.items():
+        req_frs = [f for f in frs if f["msg"][0] == "REQ"]
+        if len(req_frs) < 2:
+            continue
+        for seq, eid in event_by_id.get(sid, []):
+            t_e = ev_times.get(eid)
+            E = ev_objs.get(eid)
+            if t_e is None or E is None:
+                continue
+            cur = [f for f in req_frs if f["t_done"] is not None and f["t_done"] < t_e]
+            if not cur or cur[-1] is req_frs[0]:
+                continue
+            later = [f for f in req_frs if f["t_deliver"] > cur[-1]["t_deliver"]]
+            if later:
+                continue        # yet another REQ for the id arrived meanwhile: ambiguous
+            fl = [f for f in cur[-1]["msg"][2:] if isinstance(f, dict)]
+            if not any(model.matches(E, f, "inclusive", bare_as_empty=True) for f in fl):
+                viol.append({"cls": "push-for-replaced-subscription", "sig": "push-for-replaced-subscription|%s|%s" % (
+                    backend, "new-filters-invalid" if not any(model.wellformed_filter(f) for f in fl) else "no-match"),
+                             "detail": {"sub": sid, "event": (eid or "")[:8], "current_req": cur[-1]["msg"][:4]}})
+                break
     # every EOSE is truthful: it ends the stored events of SOME incarnation of that id, i.e. for at
     # least one REQ of the id delivered before it, every event that was durably stored before that
     # REQ arrived (and stayed stored) and matches one of its filters has been sent under the id by
@@ -275,6 +300,10 @@ def check_client(c, world, case, ev_times, ev_done, submissions, quiet_points, v
         probes["nonstring_id_reqs"] += 1
         if notice_in(fr):
             continue
+        closed_later = any(f2.get("msg") and f2["msg"][0] == "CLOSE" and f2["i"] > fr["i"] and
+                           (f2["msg"][1] == m[1] or str(f2["msg"][1]) == str(m[1])) for f2 in frames)
+        if closed_later:
+            continue          # closed (possibly before its EOSE): at most one EOSE is owed
         cand = [s for s in floating_eose if s >= fr["t_deliver"] and s not in used]
         if cand:
             used.add(cand[0])
@@ -298,6 +327,18 @@ def check_client(c, world, case, ev_times, ev_done, submissions, quiet_points, v
         if len(after) > limit:
             viol.append({"cls": "limit-exceeded", "sig": "limit-exceeded|%s" % backend,
                          "detail": {"limit": limit, "open": sorted(after)}})
+    # a CLOSE ends at most the subscription it names
+    for fr in frames:
+        m = fr.get("msg")
+        if not m or m[0] != "CLOSE" or fr.get("reg_after") is None:
+            continue
+        before, after = set(fr.get("reg_before") or []), set(fr["reg_after"])
+        lost = before - after
+        named = {m[1]} if isinstance(m[1], str) else set()
+        if (isinstance(m[1], str) and lost - named) or (not isinstance(m[1], str) and len(lost) > 1):
+            viol.append({"cls": "close-dropped-other-subs", "sig": "close-dropped-other-subs|%s|%s" % (
+                backend, "string-id" if isinstance(m[1], str) else "nonstring-id"),
+                         "detail": {"close": m[:2], "lost": sorted(lost)}})
 
 
 def run(case, sim):
@@ -317,17 +358,8 @@ def run(case, sim):
             it = c.script[c.pos]
             if it[0] == "barrier":
                 quiet_points.append(sim.stamp())
-            reg = w.registry().get(c.idx, [])
             orig_fire()
-            if it[0] == "send" and c.frames:
-                c.frames[-1]["reg_before"] = list(reg)
         c.fire = fire
-
-        async def recv(c=c, orig_recv=orig_recv):
-            if c.frames and c.frames[-1]["t_done"] is None:
-                c.frames[-1]["reg_after"] = list(w.registry().get(c.idx, []))
-            return await orig_recv()
-        c.ws_recv = recv
 
     def hook():
         for idx, subs in w.registry().items():
@@ -343,6 +375,7 @@ def run(case, sim):
     # submission times of every event id (first delivery of an EVENT command carrying it)
     ev_times = {}
     submissions = collections.Counter({e["id"]: 1 for e in case.get("preload", [])})
+    ev_objs = {}
     ev_done = {}      # when the first EVENT command carrying the id had been fully handled
     for c in w.clients:
         for fr in c.frames:
@@ -351,11 +384,13 @@ def run(case, sim):
                 i = m[1].get("id")
                 if i is not None:
                     submissions[i] += 1
+                    if model.wellformed(m[1]):
+                        ev_objs[i] = m[1]
                 if i is not None and (i not in ev_times or fr["t_deliver"] < ev_times[i]):
                     ev_times[i] = fr["t_deliver"]
                     ev_done[i] = fr["t_done"] if fr["t_done"] is not None else 10 ** 12
     for c in w.clients:
-        check_client(c, w, case, ev_times, ev_done, submissions, quiet_points, viol, probes, stored_done=ev_done)
+        check_client(c, w, case, ev_times, ev_done, submissions, quiet_points, viol, probes, stored_done=ev_done, ev_objs=ev_objs)
         if not c.finished:
             viol.append({"cls": "handler-stuck", "sig": "handler-stuck|" + backend, "detail": {"client": c.idx}})
     if over_limit:
